@@ -219,11 +219,7 @@ func runC12(c *Ctx) {
 				continue
 			}
 			and, ok := unspill(cv.X).(*ssa.BinOp)
-			if !ok || and.Op != token.AND {
-				continue
-			}
-			k, ok := and.Y.(*ssa.Const)
-			if !ok || k.Value == nil || k.Value.ExactString() != "9223372036854775807" {
+			if !ok || !clearsTopBit64(and) {
 				continue
 			}
 			uc, _ := callOf(unspill(and.X))
